@@ -223,16 +223,30 @@ where
         let res = std::panic::catch_unwind(std::panic::AssertUnwindSafe(|| {
             let mut shards: Vec<Vec<Key>> = Vec::new();
             let mut it = ss.iter();
+            // the iterators are ExactSizeIterators (size_hint = (len, Some(len))): before every next() they must announce
+            // exactly the shards left
+            let total = 1usize << case.shard_bits;
+            let mut bad_hint: Option<String> = None;
             while shards.len() < limit {
+                let left = total.saturating_sub(shards.len());
+                let h = it.size_hint();
+                if bad_hint.is_none() && h != (left, Some(left)) {
+                    bad_hint = Some(format!("after {} of {total} shards: size_hint() = {h:?}, expected exactly {left}", shards.len()));
+                }
                 match it.next() {
                     Some(sh) => shards.push(sh.iter().map(key_of).collect()),
                     None => break,
                 }
             }
-            shards
+            (shards, bad_hint)
         }));
         match res {
-            Ok(shards) => {
+            Ok((shards, bad_hint)) => {
+                d.out.checks += 1;
+                if let Some(b) = bad_hint {
+                    d.out.fail(Violation::new("iter_len", format!("sigstore:{}:iter:remaining_shards_misreported", if case.offline { "offline" } else { "online" }), b, "the number of shards not yet yielded"));
+                    return d.out;
+                }
                 d.out.steps += shards.len() as u64;
                 let partial = match p {
                     Pass::Partial(k) if *k < (1usize << case.shard_bits) => Some((*k).min(shards.len())),
